@@ -2,12 +2,13 @@
 
 What is read from /repo/src/srctools/filesys.py (class RawFileSystem), all fail-closed:
 
-* `__init__` stores `os.path.abspath(path)` as the root (`root_is_abspath`);
+* `__init__` stores `os.path.abspath(path)` as the root (`root_is_abspath`) and the parameter `constrain_path`, unchanged,
+  as `self.constrain_path`; no method of the class assigns either afterwards;
 * `_resolve_path` computes `abs_path = os.path.abspath(os.path.join(self.path, path))`, raises
   `RootEscapeError` under a boolean condition and returns `abs_path`.  The *raise condition* (conjunction of the
   enclosing `if` tests) is translated into the predicate language of rocq/SM/PathNorm.v (`gx` over string
   expressions `sx`): names `abs_path`, `self.path`, `os.sep`, string constants, `+`, `.rstrip(os.sep)`,
-  `os.path.join(a, b)`, `os.path.commonpath([a, b])`, `a if x.endswith(os.sep) else b`, local string variables
+  `os.path.join(a, b)`, `os.path.commonpath([a, b])`, `os.path.commonprefix([a, b])` (character-wise), `a if x.endswith(os.sep) else b`, local string variables
   (substituted); `==`, `!=`, `.startswith`, `.endswith`, `not`, `and`, `or`, `self.constrain_path`, True/False.
   Anything else raises TranslateError.
 * a census of every call inside RawFileSystem that touches the operating system (open, os.walk, os.stat,
@@ -24,7 +25,7 @@ from harness.common import TranslateError, ast_digest, src_text
 # calls that are pure string manipulation (no file-system access apart from getcwd in abspath)
 PURE_OS = {'os.path.join', 'os.path.abspath', 'os.path.relpath', 'os.path.normpath', 'os.fspath', 'os.path.normcase',
            'os.path.basename', 'os.path.dirname', 'os.path.split', 'os.path.splitext', 'os.path.commonpath',
-           'os.path.isabs'}
+           'os.path.isabs', 'os.path.commonprefix'}
 # calls that reach the file system through their first argument
 ACCESS = {'open', 'os.walk', 'os.stat', 'os.lstat', 'os.path.isfile', 'os.path.isdir', 'os.path.exists',
           'os.path.getmtime', 'os.path.getsize', 'os.listdir', 'os.scandir', 'io.open', 'os.open', 'os.path.lexists'}
@@ -89,6 +90,10 @@ class _Tr:
                     and isinstance(n.args[0], (ast.List, ast.Tuple)) and len(n.args[0].elts) == 2:
                 a, b = n.args[0].elts
                 return f'(SCommon {self.sx(a)} {self.sx(b)})'
+            if fd in ('os.path.commonprefix', 'posixpath.commonprefix', 'genericpath.commonprefix') and len(n.args) == 1 \
+                    and isinstance(n.args[0], (ast.List, ast.Tuple)) and len(n.args[0].elts) == 2:
+                a, b = n.args[0].elts          # character-wise: translated faithfully, never accepted by raise_sound
+                return f'(SCommonPrefix {self.sx(a)} {self.sx(b)})'
         self.fail(n, 'unrecognised string expression')
 
     def gx(self, n: ast.AST) -> str:
@@ -246,6 +251,14 @@ def translate() -> tuple[str, dict]:
     path_stores = [x for f in raw.body if isinstance(f, ast.FunctionDef) for x in ast.walk(f)
                    if isinstance(x, (ast.Assign, ast.AugAssign, ast.AnnAssign))
                    for t in (x.targets if isinstance(x, ast.Assign) else [x.target]) if _dotted(t) == 'self.path']
+    # self.constrain_path = constrain_path (the constructor's parameter, unchanged), assigned nowhere else in the class
+    con_stores = [(f.name, x) for f in raw.body if isinstance(f, ast.FunctionDef) for x in ast.walk(f)
+                  if isinstance(x, (ast.Assign, ast.AugAssign, ast.AnnAssign))
+                  for t in (x.targets if isinstance(x, ast.Assign) else [x.target]) if _dotted(t) == 'self.constrain_path']
+    init_params = {a.arg for a in init.args.args + init.args.kwonlyargs}
+    con_from_param = any(fn == '__init__' and isinstance(x, ast.Assign) and isinstance(x.value, ast.Name)
+                         and x.value.id == 'constrain_path' and 'constrain_path' in init_params for fn, x in con_stores)
+    con_elsewhere = any(fn != '__init__' for fn, _ in con_stores) or sum(1 for fn, _ in con_stores if fn == '__init__') != 1
     guard, srcs = _resolve_guard(resolve)
     sites = _access_sites(raw)
     if not sites:
@@ -259,6 +272,7 @@ def translate() -> tuple[str, dict]:
         f'Definition raise_if : gx := {guard}.',
         f'Definition root_is_abspath : bool := {"true" if root_abs else "false"}.',
         f'Definition root_reassigned_in_class : bool := {"true" if path_stores else "false"}.',
+        f'Definition constrain_flag_is_the_constructor_argument : bool := {"true" if con_from_param and not con_elsewhere else "false"}.',
         '(* every file-system access of RawFileSystem: (method, callee, path argument is a _resolve_path result) *)',
         'Definition access_sites : list (string * string * bool) := [',
         ';\n'.join(f'  ("{m}", "{c}", {"true" if ok else "false"})' for m, c, _, ok in sites),
